@@ -188,6 +188,7 @@ class Cell(Module):
             parents_in_level=parents_in_level,
             root_inds=np.asarray([0]),
             remapped_node_indices=remapped_node_indices,
+            ncomp_per_branch=np.asarray(self.ncomp_per_branch),
         )
 
     def _init_morph_jax_spsolve(self):
